@@ -1086,63 +1086,7 @@ func (f *Frame) siteHook(kind string, ins ssa.Instruction, st *State, extra map[
 			}
 			f.u.oblige("site", fmt.Sprintf("%s/at[%s]/%d.%d", f.u.name, s.Pattern, f.siteHit[s]-1, i), a.Text, f.u.eng.pos(ins.Pos()), st.reach, t)
 		case "use":
-			lu := s.Uses[act.Idx]
-			call, ok := lu.E.(*ECall)
-			if !ok {
-				f.errorf("site %q use: expected Lemma(args)", s.Pattern)
-				continue
-			}
-			var lm *Lemma
-			for n, l := range f.u.eng.cs.Lemmas {
-				if strings.ReplaceAll(n, "-", "_") == call.Fn {
-					lm = l
-				}
-			}
-			if lm == nil {
-				f.errorf("site %q use: unknown lemma %s", s.Pattern, call.Fn)
-				continue
-			}
-			q, ok := lm.Body.E.(*EQuant)
-			if !ok || !q.Forall || len(q.Vars) != len(call.Args) {
-				f.errorf("site %q use %s: lemma takes %d arguments", s.Pattern, lm.Name, len(q.Vars))
-				continue
-			}
-			ce := f.cenv(lookup, st.heap, f.entrySt.heap)
-			lenv := &CEnv{u: f.u, pkg: f.u.eng.typesPkgByPath(lm.Pkg), heap: st.heap, old: f.entrySt.heap, bound: map[string]CVal{}}
-			bad := false
-			for i, v := range q.Vars {
-				av, err := ce.evalAny(call.Args[i])
-				if err != nil {
-					f.errorf("site %q use %s arg %d: %v", s.Pattern, lm.Name, i, err)
-					bad = true
-					break
-				}
-				func() {
-					defer func() {
-						if r := recover(); r != nil {
-							f.errorf("site %q use %s arg %d: %v", s.Pattern, lm.Name, i, r)
-							bad = true
-						}
-					}()
-					vt := lenv.resolveType(v.T)
-					av = lenv.coerce(av, vt)
-					if av.T.Sort != f.u.te.sortOf(vt) {
-						efail("sort %s, want %s", av.T.Sort, f.u.te.sortOf(vt))
-					}
-					av.Ty = vt
-					lenv.bound[v.Name] = av
-				}()
-			}
-			if bad {
-				continue
-			}
-			t, err := lenv.evalBool(q.Body)
-			if err != nil {
-				f.errorf("site %q use %s: %v", s.Pattern, lm.Name, err)
-				continue
-			}
-			f.u.assume(st.reach, t)
-			f.u.usedAssumes = append(f.u.usedAssumes, "lemma "+lm.Name+" (proved separately), instantiated at "+s.Pattern)
+			f.applyLemma(s.Uses[act.Idx], "site "+s.Pattern, lookup, st)
 		case "ghost":
 			g := s.Ghost[act.Idx]
 			ce := f.cenv(lookup, st.heap, f.entrySt.heap)
@@ -1166,6 +1110,10 @@ func (f *Frame) siteHook(kind string, ins ssa.Instruction, st *State, extra map[
 // siteMatches: pattern "kind target#n"; target may be a callee name, "#*" = all.
 func (f *Frame) siteMatches(s *SiteSpec, kind string, ins ssa.Instruction) bool {
 	fields := strings.Fields(s.Pattern)
+	if len(fields) == 1 && strings.Contains(fields[0], "#") {
+		i := strings.Index(fields[0], "#")
+		fields = []string{fields[0][:i], fields[0][i:]}
+	}
 	if len(fields) == 0 || fields[0] != kind {
 		return false
 	}
@@ -1179,7 +1127,7 @@ func (f *Frame) siteMatches(s *SiteSpec, kind string, ins ssa.Instruction) bool 
 		target = target[:i]
 	}
 	switch kind {
-	case "call", "go", "defer":
+	case "call", "go", "defer", "after":
 		ci, ok := ins.(ssa.CallInstruction)
 		if !ok {
 			return false
@@ -1192,6 +1140,10 @@ func (f *Frame) siteMatches(s *SiteSpec, kind string, ins ssa.Instruction) bool 
 		if target != "" && !f.siteOperandMatches(ins, target) {
 			return false
 		}
+	}
+	if kind == "after" {
+		// ordinals of "after" sites are those of the call
+		kind = "call"
 	}
 	if want == "*" {
 		return true
@@ -1236,4 +1188,63 @@ func (f *Frame) siteOperandMatches(ins ssa.Instruction, target string) bool {
 		}
 	}
 	return false
+}
+
+// applyLemma assumes the instance Lemma(args...) of a proved lemma in state st.
+func (f *Frame) applyLemma(lu Clause, where string, lookup func(string) (CVal, bool), st *State) {
+	call, ok := lu.E.(*ECall)
+	if !ok {
+		f.errorf("%s use: expected Lemma(args)", where)
+		return
+	}
+	var lm *Lemma
+	for n, l := range f.u.eng.cs.Lemmas {
+		if strings.ReplaceAll(n, "-", "_") == call.Fn {
+			lm = l
+		}
+	}
+	if lm == nil {
+		f.errorf("%s use: unknown lemma %s", where, call.Fn)
+		return
+	}
+	q, ok := lm.Body.E.(*EQuant)
+	if !ok || !q.Forall || len(q.Vars) != len(call.Args) {
+		f.errorf("%s use %s: lemma takes %d arguments", where, lm.Name, len(q.Vars))
+		return
+	}
+	ce := f.cenv(lookup, st.heap, f.entrySt.heap)
+	lenv := &CEnv{u: f.u, pkg: f.u.eng.typesPkgByPath(lm.Pkg), heap: st.heap, old: f.entrySt.heap, bound: map[string]CVal{}}
+	bad := false
+	for i, v := range q.Vars {
+		av, err := ce.evalAny(call.Args[i])
+		if err != nil {
+			f.errorf("%s use %s arg %d: %v", where, lm.Name, i, err)
+			return
+		}
+		func() {
+			defer func() {
+				if r := recover(); r != nil {
+					f.errorf("%s use %s arg %d: %v", where, lm.Name, i, r)
+					bad = true
+				}
+			}()
+			vt := lenv.resolveType(v.T)
+			av = lenv.coerce(av, vt)
+			if av.T.Sort != f.u.te.sortOf(vt) {
+				efail("sort %s, want %s", av.T.Sort, f.u.te.sortOf(vt))
+			}
+			av.Ty = vt
+			lenv.bound[v.Name] = av
+		}()
+	}
+	if bad {
+		return
+	}
+	t, err := lenv.evalBool(q.Body)
+	if err != nil {
+		f.errorf("%s use %s: %v", where, lm.Name, err)
+		return
+	}
+	f.u.assume(st.reach, t)
+	f.u.usedAssumes = append(f.u.usedAssumes, "lemma "+lm.Name+" (proved separately), instantiated at "+where)
 }
